@@ -52,6 +52,12 @@ def parse_fields_line(toks):
 
 
 # ----------------------------------------------------------------------------- real code
+class Treecell(ctypes.Structure):
+    _fields_ = [("x", ctypes.c_double), ("y", ctypes.c_double), ("z", ctypes.c_double), ("w", ctypes.c_double),
+                ("m", ctypes.c_double), ("mx", ctypes.c_double), ("my", ctypes.c_double), ("mz", ctypes.c_double),
+                ("oct", ctypes.c_void_p * 8), ("pt", ctypes.c_int), ("remote", ctypes.c_int)]
+
+
 class Real:
     def __init__(self, rebound, info):
         self.rb = rebound
@@ -68,7 +74,16 @@ class Real:
             if r["dtype"] in ("REB_PARTICLE", "REB_PARTICLE4"):
                 el = "reb_particle"
             if el and el in info["elems"]:
-                sl = [(m["off"], m["size"]) for m in info["elems"][el]["members"] if m["kind"] in ("ptr", "fptr")]
+                mem = info["elems"][el]["members"]
+                sl = [(m["off"], m["size"]) for m in mem if m["kind"] in ("ptr", "fptr")]
+                # compiler padding between members is not a persisted quantity either (struct assignment copies garbage)
+                pos = 0
+                for off, size in sorted((m["off"], m["size"]) for m in mem):
+                    if off > pos:
+                        sl.append((pos, off - pos))
+                    pos = max(pos, off + size)
+                if pos < info["elems"][el]["size"]:
+                    sl.append((pos, info["elems"][el]["size"] - pos))
                 if sl:
                     self.ptrslots[r["id"]] = (info["elems"][el]["size"], sl)
 
@@ -111,6 +126,54 @@ class Real:
 
     def addr(self, sim):
         return ctypes.addressof(sim)
+
+    # -- the tree, walked through raw memory (struct reb_treecell of tree.h, QUADRUPOLE not compiled)
+    def tree_expected(self, sim):
+        return sim.gravity == "tree" or sim.collision in ("tree", "linetree")
+
+    def tree_leaves(self, sim):
+        """sorted particle indices stored in leaf cells of the simulation's tree; None if there is no tree"""
+        base = ctypes.addressof(sim)
+        root = ctypes.c_void_p.from_address(base + self.info["by_path"]["tree_root"]["off"]).value
+        if not root:
+            return None
+        nroot = ctypes.c_int.from_address(base + self.info["by_path"]["N_root"]["off"]).value
+        roots = (ctypes.c_void_p * nroot).from_address(root)
+        leaves, stack = [], [x for x in roots if x]
+        while stack:
+            cell = Treecell.from_address(stack.pop())
+            if cell.pt >= 0:
+                leaves.append(cell.pt)
+            else:
+                stack.extend(x for x in cell.oct if x)
+            if len(leaves) > 10 ** 6:
+                break
+        return sorted(leaves)
+
+    def tree_complete(self, sim):
+        lv = self.tree_leaves(sim)
+        return lv is not None and lv == list(range(sim.N))
+
+    def collision_signature(self, sim, t0):
+        """(N, total mass, number of particles that collided after t0, cumulative hard-sphere collision count)"""
+        ps = sim.particles
+        n = sim.N
+        return (n, math.fsum(ps[i].m for i in range(n)), sum(1 for i in range(n) if ps[i].last_collision > t0),
+                ctypes.c_int64.from_address(ctypes.addressof(sim) + self.info["by_path"]["collisions_log_n"]["off"]).value)
+
+    def raw_member_differences(self, a, b, skip=()):
+        """persisted scalar members whose raw bytes differ between two simulations (struct memory, not streams)"""
+        out = []
+        for r in self.info["rows"]:
+            p_ = r.get("path")
+            if not p_ or p_ in skip or r["dtype"] not in ("REB_DOUBLE", "REB_INT", "REB_UINT", "REB_UINT32", "REB_INT64", "REB_UINT64", "REB_VEC3D"):
+                continue
+            if r["name"].startswith(self.info["wallprefix"]):
+                continue
+            m = self.info["by_path"][p_]
+            if ctypes.string_at(ctypes.addressof(a) + m["off"], m["size"]) != ctypes.string_at(ctypes.addressof(b) + m["off"], m["size"]):
+                out.append(p_)
+        return out
 
     # -- masks
     def mask_payload(self, fid, p, extra=()):
@@ -231,6 +294,15 @@ def lattice(thorough):
         add(integrator=integ, o={}, gravity="compensated")
         add(integrator=integ, o={}, gravity="basic", boundary="periodic", system="box")
         add(integrator=integ, o={}, collision="linetree", boundary="open", system="box")
+    for integ in ("leapfrog", "ias15"):
+        for coll in ("linetree", "tree", "direct"):
+            for grav in ("basic", "none", "tree"):
+                if grav == "tree" and coll == "direct":
+                    continue
+                if grav == "none" and integ == "ias15":
+                    continue          # IAS15 without forces: the step size grows without bound
+                for res in ("merge", "hardsphere"):
+                    add(integrator=integ, o={}, gravity=grav, collision=coll, resolve=res, boundary="periodic", system="boxdense")
     add(integrator="whfast", o={"safe_mode": 0}, scalars=1)
     add(integrator="ias15", o={}, scalars=1, display=1)
     out = []
@@ -281,11 +353,21 @@ def build_sim(rb, cfg):
     elif system == "box":
         sim.configure_box(20.0)
         sim.G = 1.0
+        set_modules(sim, cfg)     # tree modules must be chosen before particles are added (they enter the tree on add)
         import random
         rng = SplitMix(12345)
         for i in range(12):
             sim.add(m=0.01 + 0.001 * i, r=0.25, x=rng.uniform(-8, 8), y=rng.uniform(-8, 8), z=rng.uniform(-8, 8),
                     vx=rng.uniform(-.5, .5), vy=rng.uniform(-.5, .5), vz=rng.uniform(-.5, .5))
+        sim.dt = 0.05
+    elif system == "boxdense":
+        sim.configure_box(10.0)
+        sim.G = 1.0
+        set_modules(sim, cfg)
+        rng = SplitMix(4711)
+        for i in range(40):
+            sim.add(m=0.01 + 0.001 * i, r=0.45, x=rng.uniform(-4.5, 4.5), y=rng.uniform(-4.5, 4.5), z=rng.uniform(-4.5, 4.5),
+                    vx=rng.uniform(-2, 2), vy=rng.uniform(-2, 2), vz=rng.uniform(-2, 2))
         sim.dt = 0.05
     elif system == "swarm":
         rng = SplitMix(cfg.get("seed", 1))
@@ -319,12 +401,7 @@ def build_sim(rb, cfg):
             obj.peri_mode = v
         else:
             setattr(obj, k, v)
-    if cfg.get("gravity"):
-        sim.gravity = cfg["gravity"]
-    if cfg.get("boundary"):
-        sim.boundary = cfg["boundary"]
-    if cfg.get("collision"):
-        sim.collision = cfg["collision"]
+    set_modules(sim, cfg)
     if cfg.get("variational") == 1:
         v = sim.add_variation()
         v.particles[1].x = 1.0
@@ -362,10 +439,19 @@ def build_sim(rb, cfg):
     return sim
 
 
+def set_modules(sim, cfg):
+    if cfg.get("gravity"):
+        sim.gravity = cfg["gravity"]
+    if cfg.get("boundary"):
+        sim.boundary = cfg["boundary"]
+    if cfg.get("collision"):
+        sim.collision = cfg["collision"]
+
+
 def attach(sim, cfg):
     """(re-)attach the callbacks of a configuration — the user's obligation after a load"""
     if cfg.get("collision"):
-        sim.collision_resolve = "merge"
+        sim.collision_resolve = cfg.get("resolve", "merge")
 
 
 def advance(sim, n):
